@@ -478,7 +478,7 @@ UNITS.append(Unit("C15", "jsonargparse._link_arguments:ActionLink.__init__", li_
 # missing value); every source is re-checked by its own action before it is read; a namespace is handed over as a dict exactly when the
 # receiving side (the target's type, or the compute function's parameter) is a mapping
 def ap2_setup(ctx):
-    scen = ["class-source-missing", "class-source-present", "namespace-to-mapping-target", "namespace-to-plain-target", "namespace-to-init_arg-mapping", "fn-with-mapping-parameter", "fn-with-plain-parameter"][ctx.choose(7, "scenario")]
+    scen = ["class-source-missing", "class-source-present", "class-source-present-with-value-None", "namespace-to-mapping-target", "namespace-to-plain-target", "namespace-to-init_arg-mapping", "fn-with-mapping-parameter", "fn-with-plain-parameter"][ctx.choose(8, "scenario")]
     ctx.classes.add("Namespace", ["object"])
     ctx.classes.add("ActionTypeHint", ["Action"])
     as_dict = Rec("dict from as_dict")
@@ -486,7 +486,9 @@ def ap2_setup(ctx):
     plain = z3.Int("source value")
     src_action = Rec("ActionTypeHint", attrs={"dest": "src", "class_typed": scen.startswith("class-source")})
     store = {}
-    if scen != "class-source-missing":
+    if scen == "class-source-present-with-value-None":
+        store["src"] = None
+    elif scen != "class-source-missing":
         store["src"] = ns_val if scen.startswith(("namespace", "fn")) else plain
     target_action = Rec("ActionTypeHint", attrs={"dest": "tgt" if scen != "namespace-to-init_arg-mapping" else "m", "_typehint": Rec("hint"), "mapping": scen == "namespace-to-mapping-target"},
                         methods={"is_mapping_typehint": lambda c, s_, a, k: s_.attrs["mapping"], "is_init_arg_mapping_typehint": lambda c, s_, a, k: (c.event("init-arg-mapping?", a[0], a[1]), scen == "namespace-to-init_arg-mapping")[1]})
@@ -494,7 +496,7 @@ def ap2_setup(ctx):
     has_fn = scen.startswith("fn")
     link = Rec("ActionLink", attrs={"source": [("src", [src_action])], "target": ("tgt" if scen != "namespace-to-init_arg-mapping" else "m.init_args.d", target_action), "compute_fn": Rec("fn") if has_fn else None,
                                     "option_strings": ["--l"], "apply_on": "parse"}, methods={"call_compute_fn": lambda c, s_, a, k: (c.event("compute", list(a[0])), computed)[1]})
-    cfg = Rec("Namespace", methods={"__contains__": lambda c, s_, a, k: a[0] in store, "__getitem__": lambda c, s_, a, k: store[a[0]]})
+    cfg = Rec("Namespace", methods={"__contains__": lambda c, s_, a, k: a[0] in store, "__getitem__": lambda c, s_, a, k: store[a[0]], "get": lambda c, s_, a, k: store.get(a[0], a[1] if len(a) > 1 else None)})
     parser = Rec("ArgumentParser", attrs={"_links_group": Rec("g"), "logger": Rec("Logger", methods={"debug": lambda c, s_, a, k: c.event("logged")})},
                  methods={"_check_value_key": lambda c, s_, a, k: (c.event("check-source", a[0], a[1], a[2], a[3]), a[1])[1]})
     param = Rec("ParamData", attrs={"annotation": Rec("annotation", attrs={"mapping": scen == "fn-with-mapping-parameter"})})
@@ -523,7 +525,7 @@ def ap2_post(ctx, st, result):
         return
     ck = [e for e in ev if e[0] == "check-source"]
     ctx.oblige("post", "the-source-is-re-checked-by-its-own-action,on-its-own-value,before-it-is-read" + tag, len(ck) == 1 and ck[0][1] is d["src_action"] and ck[0][2] is d["store"]["src"] and ck[0][3] == "src" and ck[0][4] is None)
-    want = {"class-source-present": d["plain"], "namespace-to-mapping-target": d["as_dict"], "namespace-to-plain-target": d["ns_val"], "namespace-to-init_arg-mapping": d["as_dict"],
+    want = {"class-source-present": d["plain"], "class-source-present-with-value-None": None, "namespace-to-mapping-target": d["as_dict"], "namespace-to-plain-target": d["ns_val"], "namespace-to-init_arg-mapping": d["as_dict"],
             "fn-with-mapping-parameter": d["computed"], "fn-with-plain-parameter": d["computed"]}[d["scen"]]
     ctx.oblige("post", "the-target-is-set-once,to-the-source-value(a namespace as a dict exactly when the target's type is a mapping)-or-to-what-the-function-computes" + tag,
                len(sets) == 1 and sets[0][1] is d["link"] and sets[0][2] is want and sets[0][3] is d["cfg"])
